@@ -559,6 +559,31 @@ def run(model, col, tier):
         regs = [c for c in ast.walk(reg[1]) if isinstance(c, ast.Call) and last_attr(c) == "RegisterFunction" and len(c.args) == 2 and _rt(c.args[1], r_env) == f"{fp}.GetType()"
                 and _rt(c.args[0], r_env) == f"{fp}.GetType().GetName()" and _rt(c.func.value, r_env) == f"{cp_}[-1]"]
         col.check(bool(resolves) and bool(regs) and min(c.lineno for c in resolves) < min(c.lineno for c in regs), "R10.3", f"{CT}::__RegisterFunction", "parameter types are resolved, then the function is registered under its name", None, CT, reg[1])
+        # ... on every path: a function that is declared but not entered (an exported one, say) is no candidate for calls
+        # inside the module, so such a call binds to a worse overload or is refused
+        skipped = [cond_atoms(evs) for evs, status in paths(reg[1].body) if status != "raise" and not any(c in regs for c in calls_on_path(evs))]
+        col.check(not skipped, "R10.3", f"{CT}::__RegisterFunction registers every declared function", "RegisterFunction is reached on every returning path",
+                  f"under {[(k, v) for k, v in (skipped[0].items() if skipped else [])][:3]} a declared function is not entered into the overload table: calls to it from inside the module "
+                  "resolve to another (convertible) overload or fail, although the function exists", CT, reg[1])
+    sc = model.cls(TYPES, "Scope")
+    rf = sc.own_method("RegisterFunction")
+    if rf is None:
+        raise AnchorMissing(f"{TYPES}::Scope.RegisterFunction")
+    rf_env = _le(rf, allow_impure=True)
+    fnp, tip = rf.args.args[1].arg, rf.args.args[2].arg
+    lost = []
+    nreg = 0
+    for evs, status in paths(rf.body):
+        if status == "raise":
+            continue
+        nreg += 1
+        apps = [c for c in calls_on_path(evs) if last_attr(c) == "append" and c.args and _rt(c.args[0], rf_env) == tip]
+        if not apps:
+            lost.append(cond_atoms(evs, rf_env))
+    col.floor("R10.3", "returning paths of Scope.RegisterFunction", nreg, 1)
+    col.check(not lost, "R10.3", f"{TYPES}::Scope.RegisterFunction keeps every declaration", "the function type is appended to the overload list of its name on every returning path",
+              f"under {[(k[:50], v) for k, v in (lost[0].items() if lost else [])][:3]} a declaration is dropped from the overload list: two declarations that should tie (ambiguous call) "
+              "no longer do, and the call is bound to one of them silently", TYPES, rf)
     pe = ctv.own_method("_ProcessExpression")
     from ..sem import expand_helpers as _xh103
 
@@ -653,3 +678,92 @@ def run(model, col, tier):
         if not viol:
             col.ok("R10.6", f"{TYPES}::{fname} attribute resolution", f"{checked} attribute uses on predicate-narrowed parameters all resolve")
     col.floor("R10.6", "attribute uses on narrowed parameters", total, 20)
+    check_exported_unique(model, col, "R10.8")
+    # Function.Match counts the declared parameters but compares against the resolved table: the table has one entry per
+    # declared parameter, named or not (= R03.5)
+    res = model.cls(TYPES, "Function").own_method("Resolve")
+    loops_ = [n for n in ast.walk(res) if isinstance(n, ast.For) and "arguments" in unparse(n.iter)]
+    per_iter = bool(loops_)
+    for lp in loops_[:1]:
+        for evs_, st_ in paths(lp.body, loop_iters=(1,)):
+            if st_ == "raise":
+                continue
+            stores = [e for e in evs_ if e.kind == "stmt" and isinstance(e.node, ast.Assign) and isinstance(e.node.targets[0], ast.Subscript) and "argumentTypes" in unparse(e.node.targets[0].value)]
+            if len(stores) != 1:
+                per_iter = False
+    col.check(per_iter, "R10.4", f"{TYPES}::Function.Resolve one entry per parameter", "every declared parameter (named or unnamed) adds exactly one entry to the table Match compares against",
+              "a declared parameter can be skipped when the parameter table is filled: Match then pairs the arguments with the wrong parameter types (an unnamed `float2` parameter "
+              "matches anything), so a non-viable candidate scores 0 and wins", TYPES, res)
+
+
+def check_exported_unique(model, col, rule):
+    """Exported functions carry their raw name into the IR module, so two of them with one name would share one IR name and
+    the later body would answer for both: the validator remembers every exported *name* it has seen (a set that only grows,
+    keyed by GetName()) and rejects a name it sees again."""
+    from ..sem import expand_helpers, local_env, rtext
+
+    rel = "nsl/passes/ValidateExportedFunctions.py"
+    v = next((c for c in model.classes.values() if c.file == rel and "v_Function" in c.methods), None)
+    if v is None:
+        raise AnchorMissing(f"{rel}: visitor with v_Function")
+    h0 = v.methods["v_Function"]
+    h = expand_helpers(model, v, h0)
+    fp = h.args.args[1].arg
+    selfn = h.args.args[0].arg
+    env = local_env(h, allow_impure=True)
+    # the remembered-names field: a set created in __init__
+    init = v.own_method("__init__")
+    sets = [n.targets[0].attr for n in ast.walk(init) if isinstance(n, ast.Assign) and isinstance(n.targets[0], ast.Attribute)
+            and (isinstance(n.value, ast.Set) or (isinstance(n.value, ast.Call) and dotted(n.value.func) == "set"))] if init is not None else []
+    col.check(len(sets) >= 1, rule, f"{rel}::{v.name} remembers exported names", f"set field(s) {sets} created per visitor", "no per-visitor set of seen exported names", rel, v.node)
+    if not sets:
+        return
+    fld = sets[0]
+    # the set only grows
+    rebinds = []
+    for m in v.methods.values():
+        if m is init:
+            continue
+        for x in ast.walk(m):
+            tg = x.targets if isinstance(x, ast.Assign) else [x.target] if isinstance(x, (ast.AugAssign, ast.AnnAssign)) else []
+            if any(isinstance(t, ast.Attribute) and t.attr == fld for t in tg):
+                rebinds.append(" ".join(unparse(x).split())[:60])
+            if isinstance(x, ast.Call) and isinstance(x.func, ast.Attribute) and isinstance(x.func.value, ast.Attribute) and x.func.value.attr == fld \
+                    and x.func.attr in ("clear", "discard", "remove", "pop", "difference_update", "intersection_update"):
+                rebinds.append(unparse(x.func))
+    col.check(not rebinds, rule, f"{rel}::{v.name}.{fld} only grows", "names are added, never dropped or re-bound",
+              f"{rebinds}: names seen earlier are forgotten, so a second exported function of an earlier name is accepted when another export lies between them; "
+              "both lower to the same IR name and the later body runs for calls bound to the first", rel, v.node)
+    # path discipline
+    keys = set()
+    problems = []
+    npaths = 0
+    for evs, status in paths(h.body):
+        a = cond_atoms(evs, env)
+        exported = next((val for k, val in a.items() if k.replace(" ", "") in (f"{fp}.isExported", f"{fp}.IsExported()", f"{fp}.GetType().exported")), None)
+        if exported is not True:
+            continue
+        npaths += 1
+        seen = next(((k, val) for k, val in a.items() if k.endswith(f" in {selfn}.{fld}")), None)
+        if seen is None:
+            problems.append("an exported function passes without being looked up among the names seen so far")
+            continue
+        key = seen[0][: -len(f" in {selfn}.{fld}")]
+        keys.add(key)
+        cs = calls_on_path(evs)
+        if seen[1] is True:
+            flagged = any(isinstance(e.node, ast.Assign) and isinstance(e.node.targets[0], ast.Attribute) and e.node.targets[0].attr == "valid" and isinstance(e.node.value, ast.Constant) and e.node.value.value is False
+                          for e in evs if e.kind == "stmt")
+            raised = any(last_attr(c) == "Raise" for c in cs) or status == "raise"
+            if not (flagged and raised):
+                problems.append("a repeated exported name is not rejected (verdict flag cleared and error raised)")
+        else:
+            adds = [c for c in cs if last_attr(c) == "add" and isinstance(c.func.value, ast.Attribute) and c.func.value.attr == fld and c.args and rtext(c.args[0], env) == key]
+            if not adds:
+                problems.append("a new exported name is not remembered")
+    col.floor(rule, "paths of the exported-function validator for exported functions", npaths, 2)
+    col.check(not problems, rule, f"{rel}::{v.name} rejects a repeated exported name", "seen -> verdict cleared and error raised; new -> remembered",
+              (problems[0] if problems else "") + ": two exported functions of one name reach lowering, where they share the raw IR name", rel, h0)
+    col.check(keys == {f"{fp}.GetName()"}, rule, f"{rel}::{v.name} compares raw names", f"exported functions are remembered by {fp}.GetName(), the name they are lowered under",
+              f"exported functions are remembered by {sorted(keys)}: lowering gives every exported function its raw name, so two exported overloads with different signatures "
+              "are accepted and collide in the IR module (the one declared last runs for every call)", rel, h0)
